@@ -31,7 +31,7 @@
   `A f = 2f` names fiber f inside the mutex sub-models, `D w = 2w+1` the deferred-unlock agent
   of waiter w.
 -/
-import LibfiberVerif.Proof.Cond
+import LibfiberVerif.Proof.CondTrace
 
 namespace LibfiberVerif.Cond
 
@@ -65,6 +65,13 @@ theorem count_balance (es : List Ev) (s : St) (h : sys.run es = some s) :
   · intro hm
     obtain ⟨f, hf⟩ := hi.missEx (by omega)
     exact ⟨f, hf, hi.mi.holder (A f) (by rw [hi.holdI f (by rw [hf]; rfl)]; rfl)⟩
+
+/-- claims never exceed registrations: no signal or broadcast ever claims a waiter that did not
+    register -/
+theorem claims_le_registrations (es : List Ev) (s : St) (h : sys.run es = some s) :
+    s.nclaim ≤ s.nreg := by
+  obtain ⟨hi, h2⟩ := inv2_of_run h
+  have := hi.cnt; have := h2.cnt0; omega
 
 /-! ### no spurious release -/
 
@@ -193,6 +200,43 @@ theorem broadcast_releases_all (es : List Ev) (s : St) (f : Nat) (h : sys.run es
     have hl := hi.loc f; rw [hpc] at hl; simp only [Loc] at hl
     exact hl.1.1
 
+/-- `signal_releases_one`, over event lists: in any accepted trace, between a signal's
+    `fetch_sub` on the waiter count (which read `old`) and that call's return, the signaller pops
+    `cond->waiters` exactly once if `old ≥ 1` and not at all otherwise.  (`mid` is the rest of
+    that call: it contains no further call / claim event of `f`.) -/
+theorem signal_pops_exactly_claim (es mid : List Ev) (f : Nat) (old : Int) (s' : St)
+    (h : sys.run (es ++ [.fsubCount f old] ++ mid ++ [.retSignal f]) = some s')
+    (hmid : ∀ e ∈ mid, isSigStart f e = false) :
+    popsBy f mid = if old ≥ 1 then 1 else 0 := by
+  obtain ⟨s2, h2, hret⟩ := run_append h
+  obtain ⟨s1, h1, hmidrun⟩ := run_append h2
+  obtain ⟨s0, h0, hclaim⟩ := run_append h1
+  have hc := signal_claims es s0 s1 f old h0 (runFrom_single hclaim)
+  have hg := runFrom_sig f mid s1 s2 hmidrun hmid
+  have hr := (signal_releases_one _ s2 f h2).1 s' (runFrom_single hret)
+  rw [hc.2.2.1] at hg
+  have : popsBy f mid = (s1.gh f).claimed := by omega
+  rw [this, hc.2.1]
+
+/-- `broadcast_releases_all`, over event lists: between a broadcast's exchange on the waiter
+    count (which returned `n = old`) and that call's return, the broadcaster pops
+    `cond->waiters` exactly `n` times. -/
+theorem broadcast_pops_exactly_count (es mid : List Ev) (f : Nat) (old : Int) (s' : St)
+    (h : sys.run (es ++ [.xchgCount f old] ++ mid ++ [.retBroadcast f]) = some s')
+    (hmid : ∀ e ∈ mid, isSigStart f e = false) :
+    (popsBy f mid : Int) = old := by
+  obtain ⟨s2, h2, hret⟩ := run_append h
+  obtain ⟨s1, h1, hmidrun⟩ := run_append h2
+  obtain ⟨s0, h0, hclaim⟩ := run_append h1
+  have hs := runFrom_single hclaim
+  have hc := broadcast_claims es s0 s1 f old h0 hs
+  have hnn := (xchgCount_effect hs).2.2.1
+  have hg := runFrom_sig f mid s1 s2 hmidrun hmid
+  have hr := (broadcast_releases_all _ s2 f h2).1 s' (runFrom_single hret)
+  rw [hc.2.2.2.1] at hg
+  have : popsBy f mid = old.toNat := by omega
+  rw [this]; exact Int.toNat_of_nonneg hnn
+
 /-! ### atomic unlock-and-wait -/
 
 /-- `unlock_after_register`: for every waiter w, the k-th release of M on w's behalf comes after
@@ -207,6 +251,41 @@ theorem unlock_after_register (es : List Ev) (s : St) (w : Nat) (h : sys.run es 
   obtain ⟨-, h2, -, h4⟩ := hl
   split at h2 <;> omega
 
+/-- the atomic step: from `call wait` until its link (its last access before switching away) the
+    waiter w itself owns M; from the link until the deferred unlock its agent `D w` owns M
+    (`nU w < nL w` = a link of w whose release is outstanding; at most one is).  So M is owned
+    on w's behalf without interruption from before w is counted until after w is enqueued, and
+    no fiber that synchronises through M — in particular no signaller holding M — can run in
+    between: whoever else is between acquire and release of M would be a second owner. -/
+theorem atomic_unlock_and_wait (es : List Ev) (s : St) (w : Nat) (h : sys.run es = some s) :
+    (inWait (s.pc w) = true → s.m.owner = some (A w) ∧ s.m.pc (A w) = .held) ∧
+    ((s.gh w).nU < (s.gh w).nL → s.m.owner = some (D w) ∧ s.m.pc (D w) = .held) ∧
+    (s.gh w).nL ≤ (s.gh w).nU + 1 ∧
+    (∀ f, f ≠ w → isHolder (s.m.pc (A f)) = true →
+        inWait (s.pc w) = false ∧ (s.gh w).nU = (s.gh w).nL) := by
+  obtain ⟨hi, h2⟩ := inv2_of_run h
+  have hU : (s.gh w).nU ≤ (s.gh w).nL := by
+    have := hi.loc w; simp only [Loc] at this; exact this.2.2.2
+  refine ⟨?_, ?_, h2.oneLink w, ?_⟩
+  · intro hw
+    have := h2.waitHolds w hw
+    exact ⟨hi.mim.holder (A w) (by rw [this]; rfl), this⟩
+  · intro hlt
+    have := h2.agentHolds w hlt
+    exact ⟨hi.mim.holder (D w) (by rw [this]; rfl), this⟩
+  · intro f hne hf
+    have hof := hi.mim.holder (A f) hf
+    refine ⟨?_, ?_⟩
+    · cases hw : inWait (s.pc w) with
+      | false => rfl
+      | true =>
+        have := hi.mim.holder (A w) (by rw [h2.waitHolds w hw]; rfl)
+        rw [hof] at this; exact absurd (A_inj (Option.some.inj this)) hne
+    · by_cases hlt : (s.gh w).nU < (s.gh w).nL
+      · have := hi.mim.holder (D w) (by rw [h2.agentHolds w hlt]; rfl)
+        rw [hof] at this; exact absurd (Option.some.inj this) (A_ne_D f w)
+      · omega
+
 /-- the release itself: a `fetch_add(M.counter)` is either the unlock of a fiber that owns M
     (harness-level), or the deferred unlock for the waiter w that registered on that kernel
     thread; the latter is accepted only when w's deferred agent holds M, i.e. strictly after
@@ -216,15 +295,16 @@ theorem deferred_release_after_link (es : List Ev) (s s' : St) (t g : Nat) (old 
     (h : sys.run es = some s) (hs : step s (.fadd .M t g old) = some s') :
     (s.pc g = .idle ∧ s.m.pc (A g) = .unlockCalled ∧ s.m.owner = some (A g)) ∨
     (∃ w, s.deferred t = some w ∧ s.m.owner = some (D w) ∧
-      (s.gh w).nU < (s.gh w).nL ∧ (s.gh w).nL ≤ (s.gh w).nE ∧ (s.gh w).nE ≤ (s.gh w).nC) := by
-  have hi := inv_of_run h
+      (s.gh w).nU + 1 = (s.gh w).nL ∧ (s.gh w).nL ≤ (s.gh w).nE ∧ (s.gh w).nE ≤ (s.gh w).nC) := by
+  obtain ⟨hi, hj⟩ := inv2_of_run h
   rcases faddM_pre hs with ⟨h1, h2⟩ | ⟨w, h1, h2, h3, -⟩
   · exact Or.inl ⟨h1, h2, hi.mim.holder (A g) (by rw [h2]; rfl)⟩
   · right
     have hlt := hi.dh w h2
     have hl := hi.loc w; simp only [Loc] at hl
     obtain ⟨-, hl2, -, hl4⟩ := hl
-    refine ⟨w, h1, h3, hlt, ?_⟩
+    have := hj.oneLink w
+    refine ⟨w, h1, h3, by omega, ?_⟩
     split at hl2 <;> omega
 
 /-! ### wait returns with the mutex -/
@@ -295,6 +375,15 @@ example : (sys.run (traceRegisteredNotEnqueued.take 14)).map
     some (0, 1, 1, [], .waitClearedNode 20, .wake false 1 .top) := by rfl
 example : (sys.run traceRegisteredNotEnqueued).map (fun s => ((s.gh 16).nR, (s.gh 16).nU, (s.gh 17).popped)) =
     some (1, 1, 1) := by rfl
+
+-- hypotheses of `signal_pops_exactly_claim` are satisfiable by this implementation trace:
+-- es = first 11 events, the claim (`fsubCount 17 1`), mid = the next 16 events, then `retSignal 17`
+example : traceRegisteredNotEnqueued =
+    traceRegisteredNotEnqueued.take 11 ++ [.fsubCount 17 1] ++
+      (traceRegisteredNotEnqueued.drop 12).take 16 ++ [.retSignal 17] ++
+      traceRegisteredNotEnqueued.drop 29 := by rfl
+example : ∀ e ∈ (traceRegisteredNotEnqueued.drop 12).take 16, isSigStart 17 e = false := by decide
+example : popsBy 17 ((traceRegisteredNotEnqueued.drop 12).take 16) = 1 := by rfl
 
 /-- `w | w | b` on 2 kernel threads (seed 140): a broadcast that releases two waiters; the
     deferred unlock of M finds M contended and runs its own wake loop on M.waiters. -- 85 events -/
